@@ -23,7 +23,7 @@ RULE = ("per module a problem generator over its problem format: nurikabe (0, -1
 ASSUMPTIONS = ["refs/pzpr.py implements the pzpr body grammar (number16, 4cell, circle, arrownumber16, border, room numbers, compass) as documented "
                "in DESIGN.md Appendix B", "pzpr yajilin numbers >= 16 use the direction+5 two-digit form"]
 MODULES = ["nurikabe", "masyu", "slitherlink", "sudoku", "nurimisaki", "yajilin", "heyawake", "lits", "norinori", "compass", "star_battle", "aquarium"]
-REQUIRED = ["c16.roundtrip_checked", "c16.pzpr_checked", "c16.head_checked", "c16.legacy_checked", "c16.nonsquare", "c16.recorded_urls"] + ["c16.mod." + m for m in MODULES]
+REQUIRED = ["c16.roundtrip_checked", "c16.pzpr_checked", "c16.head_checked", "c16.legacy_checked", "c16.nonsquare", "c16.recorded_urls", "c16.encode_repeated", "c16.decode_repeated"] + ["c16.mod." + m for m in MODULES]
 
 
 def plan(tier):
@@ -78,11 +78,31 @@ class Judge:
         return False
 
     def call(self, kind, fn, *a):
+        import copy
+
         try:
-            return True, fn(*a)
+            r = fn(*a)
         except Exception as e:
             self.fail(f"{kind}-raises:{type(e).__name__}", f"{kind} raised {e!r}")
             return False, None
+        if kind not in ("encode", "decode"):
+            return True, r
+        # history: the codecs are module-level objects used again and again; a second identical call must give the same answer,
+        # also after the caller has edited what the first call handed back
+        keep = copy.deepcopy(r)
+        if kind == "decode":
+            from .c15 import scramble_in_place
+
+            scramble_in_place(r, self.ctx.rng)
+        try:
+            r2 = fn(*a)
+        except Exception as e:
+            self.fail(f"{kind}-second-call-raises:{type(e).__name__}", f"second identical {kind} call raised {e!r}")
+            return True, keep
+        self.ctx.count(f"c16.{kind}_repeated")
+        if r2 != keep:
+            self.fail(f"{kind}-not-repeatable", f"second identical {kind} call gave {repr(r2)[:200]}, the first gave {repr(keep)[:200]}")
+        return True, keep
 
     def head(self, url, name, h, w):
         self.ctx.count("c16.head_checked")
